@@ -100,7 +100,7 @@ def info(tier):
         "point x min/max x tol x 5 methods; linprog statuses 0-4); every OPTIMAL solution's constraints and bounds are "
         "re-evaluated by the reference interpreter; distinct = canonical (problem, method, options | stub script) hashes"
         % len(message_catalogue()),
-        "required_cells": ["A:feasible", "A:infeasible", "A:boundary", "A:lp-feasible", "A:lp-infeasible", "A:deep-constraint", "A:edit-then-resolve", "A:mixed-degree-vector", "A:view-order-constraint", "A:parametric-linear-after-set", "A:symmetric-matrix-reduction"]
+        "required_cells": ["A:feasible", "A:infeasible", "A:boundary", "A:lp-feasible", "A:lp-infeasible", "A:deep-constraint", "A:edit-then-resolve", "A:mixed-degree-vector", "A:view-order-constraint", "A:parametric-linear-after-set", "A:symmetric-matrix-reduction", "A:big-single-vector-lp", "A:variable-free-constraint"]
         + [f"A:method:{m}" for m in sorted(set(NLP_METHODS + LP_METHODS))]
         + [f"B:point:{p}" for p in ("feasible", "violates-le", "violates-ge", "violates-eq", "violates-lb", "violates-ub")]
         + ["B:success:True", "B:success:False", "B:linprog"],
@@ -245,6 +245,43 @@ def symmetric_reduction_problem(rng):
     return {"decls": decls, "objective": obj, "sense": "min", "constraints": [con]}
 
 
+def big_vector_lp(rng):
+    """a packing LP written entirely over ONE whole VectorVariable with more than ten elements (x[10] sorts after x[9], not after x[1])"""
+    n = rng.choice([11, 12, 14])
+    x = ["vec", "x"]
+    decls = [{"k": "vec", "name": "x", "n": n, "lb": 0.0, "ub": 4.0}]
+    w = [float(1 + (3 * i) % 7) for i in range(n)]
+    v = [float(2 + (5 * i + 1) % 9) for i in range(n)]
+    cons = [["rel", "<=", ["matmul", ["arr", w], x], ["raw", 30.0, "float"], "direct"]]
+    if rng.random() < 0.5:
+        cons.append(["rel", ">=", ["matmul", x, ["arr", [float(i % 3) for i in range(n)]]], ["raw", 2.0, "float"], "direct"])
+    if rng.random() < 0.5:
+        cons.append(["rel", "<=", ["sum", x], ["raw", 9.0, "float"], "direct"])
+    return {"decls": decls, "objective": ["matmul", ["arr", v], x], "sense": "max", "constraints": cons}
+
+
+def variable_free_constraint_problem(rng):
+    """a feasible-looking model with one violated constraint that mentions no decision variable (a relation between two Parameters, a
+    constant row): the problem is infeasible whatever the solver does with it"""
+    x = ["vec", "x"]
+    decls = [{"k": "vec", "name": "x", "n": 2, "lb": -2.0, "ub": 3.0}, {"k": "par", "name": "p", "val": 2.0}, {"k": "par", "name": "q", "val": 3.5}]
+    d = ["vbin", "-", x, ["arr", [1.0, 0.5]]]
+    obj = ["bin", "+", ["dot", d, d], ["bin", "*", ["par", "p"], ["el", x, 0]]]
+    kind = rng.choice(["par<=par", "const>=1", "par-expr>=par", "const==const"])
+    if kind == "par<=par":
+        bad = ["rel", "<=", ["par", "q"], ["par", "p"], "direct"]                       # demand 3.5 <= capacity 2.0
+    elif kind == "const>=1":
+        bad = ["rel", ">=", ["const", 0.0, "float"], ["raw", 1.0, "float"], "direct"]
+    elif kind == "par-expr>=par":
+        bad = ["rel", ">=", ["bin", "*", ["raw", 2.0, "float"], ["par", "p"]], ["bin", "+", ["par", "q"], ["raw", 1.0, "float"]], "direct"]   # 4 >= 4.5
+    else:
+        bad = ["rel", "==", ["bin", "+", ["const", 1.0, "float"], ["const", 1.0, "float"]], ["raw", 3.0, "float"], "direct"]
+    cons = [["rel", "<=", ["sum", x], ["raw", 2.0, "float"], "direct"], bad]
+    if rng.random() < 0.5:
+        cons.reverse()
+    return {"decls": decls, "objective": obj, "sense": "min", "constraints": cons}
+
+
 def mixed_degree_problem(rng):
     """an otherwise linear model with one vector operand whose elements have different degrees (the non-linear one not last)"""
     n = 3
@@ -355,6 +392,16 @@ def workload_a(ctx, rec):
         k += 1
         which = k % 9
         lp = False
+        if which == 7 and n % 2:
+            prob = big_vector_lp(rng)
+            for m in ("auto", "linprog", "highs-ds", "highs-ipm"):
+                run_real(rec, rng, prob, "A:big-single-vector-lp", m, {})
+            continue
+        if which == 5 and n % 2:
+            prob = variable_free_constraint_problem(rng)
+            for m in ("auto", "SLSQP", "trust-constr", "COBYLA"):
+                run_real(rec, rng, prob, "A:variable-free-constraint", m, {"maxiter": 300} if m == "trust-constr" else {})
+            continue
         if which == 8 and n % 3 == 0:
             prob = symmetric_reduction_problem(rng)
             for m in ("auto", "SLSQP", "trust-constr"):
